@@ -541,7 +541,9 @@ func genMotif(r *rand.Rand, m int, in *kvInput, exists map[string]bool, hot []st
 		}
 		kv(bodyWrite())
 		kv(read())
-		if r.Intn(2) == 0 {
+		// a document with an empty body is a document: every insert-style write must be refused
+		kv(&KOp{Kind: pick(r, []string{"SetRaw", "AddRaw"}), Val: sp("")})
+		for j := 0; j < 1+r.Intn(3); j++ {
 			kv(inserter())
 		}
 	case motifTombstoneCycle:
@@ -641,6 +643,11 @@ func genMotif(r *rand.Rand, m int, in *kvInput, exists map[string]bool, hot []st
 		view(h, "v0", &ViewParams{})
 		x := []XKV{{Name: "_sync", Val: sp(pick(r, xattrVals))}}
 		kv(&KOp{Kind: "SetWithMeta", CasMode: pick(r, []string{"current", "zero"}), NewCas: pick(r, []uint64{5000, 1 << 30, 1<<61 + 9}) + uint64(r.Intn(50)), Val: sp(pick(r, jsonBodies)), IsJSON: true, XObj: &x})
+		view(h, pick(r, []string{"v0", "v1"}), &ViewParams{})
+		// a WithMeta write of ANOTHER key (possibly a new document) with a CAS far below what is indexed
+		key2 := pick(r, kvKeys)
+		in.Ops = append(in.Ops, Step{Kind: "kv", Coll: cn, Key: key2, Handle: h, Op: &KOp{Kind: "SetWithMeta", CasMode: pick(r, []string{"zero", "current"}),
+			NewCas: pick(r, []uint64{12345, 1 << 20, 1 << 41}) + uint64(r.Intn(50)), Val: sp(pick(r, jsonBodies)), IsJSON: true}, Clock: next()})
 		view(h, pick(r, []string{"v0", "v1"}), &ViewParams{})
 		if r.Intn(2) == 0 {
 			kv(&KOp{Kind: "DeleteWithMeta", CasMode: "current", NewCas: 5600 + uint64(r.Intn(50))})
